@@ -120,7 +120,7 @@ def prepare(tmp, case):
     return p
 
 
-def run_history(case, p, crash_at=None, on_round=None, wrap=True):
+def run_history(case, p, crash_at=None, on_round=None, wrap=True, after_close=None):
     """Run the history; returns the shared operation record."""
     from quansino.io.core import Observer
     from quansino.mc.gcmc import GrandCanonical
@@ -164,6 +164,8 @@ def run_history(case, p, crash_at=None, on_round=None, wrap=True):
             for _ in step:
                 pass
         mc.close()
+        if after_close is not None:
+            after_close(mc)
     return shared
 
 
@@ -215,8 +217,11 @@ def run_case(case):
         # ---------- no-crash run on paths opened by quansino itself (exercises the file mode)
         p = prepare(tmp, case)
         natoms, images, viol = [], [], []
+        reopened = {}
 
         def on_round(mc, atoms, shared):
+            if reopened.get("closed"):
+                return  # rounds of a run continued after close() are judged by after_close only
             natoms.append(len(atoms))
             if not viol:
                 v = check_round_files(p, case, len(natoms) - 1, natoms, mc.step_count)
@@ -224,11 +229,31 @@ def run_case(case):
                     viol.append(v)
             images.append({t: open(path).read() for t, path in p.items()})
 
+        def after_close(mc):
+            reopened["closed"] = True
+            # the user runs on after close(): whether that is refused or continues, what was written stays
+            before = {t: open(path).read() for t, path in p.items() if t != "restart"}
+            try:
+                mc.run(1)
+                reopened["outcome"] = "continued"
+            except Exception as exc:
+                reopened["outcome"] = "refused:" + type(exc).__name__
+            try:
+                mc.close()
+            except Exception:
+                pass
+            for t, text in before.items():
+                if not open(p[t]).read().startswith(text):
+                    reopened["lost"] = t
+
         try:
-            run_history(case, p, on_round=on_round, wrap=False)
+            run_history(case, p, on_round=on_round, wrap=False, after_close=after_close)
         except Exception as exc:
             return {"labels": labels + ["raised"], "nontrivial": True, "violation": {"kind": f"run-raises:{type(exc).__name__}", "detail": repr(exc)[:300]}}
         evals += len(natoms)
+        labels.append("run-after-close:" + reopened.get("outcome", "?"))
+        if reopened.get("lost") and not viol:
+            viol.append(("run-after-close:earlier-bytes-lost", f"run after close() ({reopened.get('outcome')}): the {reopened['lost']} file no longer starts with what had been written before"))
         if 0 in natoms:
             labels.append("empty-box-visited")
         if viol:
